@@ -393,8 +393,7 @@ Qed.
 
 Theorem bad_body_refused_holds hooks path b r : bad_body_refused b (fst (admit_request hooks path b r)) = true.
 Proof.
-  unfold admit_request. destruct b as [uid| | |]; try reflexivity.
-  destruct (admit_review hooks path uid r). reflexivity.
+  unfold admit_request. destruct b as [uid| | |]; reflexivity.
 Qed.
 
 Theorem patchtype_iff_patch_holds hooks path b r : patchtype_iff_patch (fst (admit_request hooks path b r)) = true.
@@ -410,6 +409,9 @@ Proof.
   - inversion E; subst rv; reflexivity.
 Qed.
 
+Lemma nobody_ran l : existsb (ran_is None) l = false.
+Proof. induction l as [|g l IH]; [reflexivity | exact IH]. Qed.
+
 Theorem relay_holds hooks path b r :
   relay (model_regs hooks) path r (fst (admit_request hooks path b r)) (snd (admit_request hooks path b r)) = true.
 Proof.
@@ -417,12 +419,12 @@ Proof.
   destruct (admit_review hooks path uid r) as [rv who] eqn:E. cbn [fst snd]. unfold relay.
   destruct (valid_response (file r)) as [[[[al m] w] p]|] eqn:Ev; [|reflexivity].
   destruct (exit_zero r) eqn:Ex; [|reflexivity]. cbn [andb].
-  destruct (existsb (ran_is who) (registrars (model_regs hooks) path)); [|reflexivity].
   unfold admit_review in E. destruct (detect path) as [conf id].
   destruct (file r) as [| |a m' w' p' [|]] eqn:Ef; cbn [valid_response] in Ev; try discriminate.
   inversion Ev; subst a m' w' p'.
   destruct (find_task hooks conf id) as [[h [t n]]|].
   - rewrite Ex in E. cbn [negb] in E. inversion E; subst rv who.
+    destruct (existsb _ _); [|reflexivity].
     cbn [a_allowed a_warnings a_msg a_patch a_patchtype].
     assert (list_eqb N.eqb w w = true) as -> by (apply list_eqb_refl, N.eqb_refl).
     rewrite Bool.eqb_reflx. cbn [andb].
@@ -431,7 +433,7 @@ Proof.
                   | AMHook m' => N.eqb m' m | _ => false end) = true) as ->.
     { destruct al; [reflexivity|]. destruct (N.eqb m 0); [reflexivity | apply N.eqb_refl]. }
     cbn [andb]. destruct t; [reflexivity|]. now rewrite N.eqb_refl, Bool.eqb_reflx.
-  - inversion E; subst rv who. reflexivity.
+  - inversion E; subst rv who. now rewrite nobody_ran.
 Qed.
 
 Theorem routed_holds hooks path b r : names_ok hooks ->
@@ -485,4 +487,22 @@ Proof.
   destruct (binds_name_ok hooks h' hk' t' n' Hok Hin' Hb') as [Hs' Hne'].
   apply (same_path_detect n path Hs Hne) in Px. apply (same_path_detect n' path Hs' Hne') in Py.
   rewrite Px in Py. now inversion Py.
+Qed.
+
+(* the fail-closed statement spelt out *)
+Theorem fail_closed_explicit hooks path b r : names_ok hooks ->
+  allowed_of (fst (admit_request hooks path b r)) = true ->
+  (exists uid, b = BReview uid)
+  /\ (exists g, In g (registrars (model_regs hooks) path) /\ ran_is (snd (admit_request hooks path b r)) g = true)
+  /\ exit_zero r = true
+  /\ exists m w p, file r = FResp true m w p false.
+Proof.
+  intros Hok Ha. pose proof (fail_closed_holds hooks path b r Hok) as H. unfold fail_closed in H. rewrite Ha in H.
+  apply andb_true_iff in H. destruct H as [H H4]. apply andb_true_iff in H. destruct H as [H H3].
+  apply andb_true_iff in H. destruct H as [H1 H2]. repeat split.
+  - destruct b; try discriminate. now eexists.
+  - apply existsb_exists in H2. destruct H2 as (g & Hg & Hr). now exists g.
+  - exact H3.
+  - destruct (file r) as [| |a m w p [|]]; cbn [valid_response] in H4; try discriminate.
+    destruct a; [|discriminate]. now exists m, w, p.
 Qed.
